@@ -1,0 +1,123 @@
+//go:build verif
+
+// Copyright (c) Microsoft Corporation.
+// Licensed under the MIT License.
+
+// yardl-verif exposes internal tables and functions of the yardl tooling to an external
+// verification harness. It is only built with the `verif` build tag and is not part of yardl.
+package main
+
+import (
+	"bufio"
+	"encoding/json"
+	"fmt"
+	"os"
+	"strings"
+
+	cppcommon "github.com/microsoft/yardl/tooling/internal/cpp/common"
+	"github.com/microsoft/yardl/tooling/internal/formatting"
+	matlabcommon "github.com/microsoft/yardl/tooling/internal/matlab/common"
+	"github.com/microsoft/yardl/tooling/internal/ndjsoncommon"
+	pythoncommon "github.com/microsoft/yardl/tooling/internal/python/common"
+	"github.com/microsoft/yardl/tooling/pkg/dsl"
+	"github.com/microsoft/yardl/tooling/pkg/packaging"
+)
+
+var primitives = []dsl.PrimitiveDefinition{
+	dsl.PrimitiveBool, dsl.PrimitiveInt8, dsl.PrimitiveUint8, dsl.PrimitiveInt16, dsl.PrimitiveUint16,
+	dsl.PrimitiveInt32, dsl.PrimitiveUint32, dsl.PrimitiveInt64, dsl.PrimitiveUint64, dsl.PrimitiveSize,
+	dsl.PrimitiveFloat32, dsl.PrimitiveFloat64, dsl.PrimitiveComplexFloat32, dsl.PrimitiveComplexFloat64,
+	dsl.PrimitiveString, dsl.PrimitiveDate, dsl.PrimitiveTime, dsl.PrimitiveDateTime,
+}
+
+func simple(p dsl.PrimitiveDefinition) *dsl.SimpleType {
+	return &dsl.SimpleType{Name: string(p), ResolvedDefinition: p}
+}
+
+func recovered(f func() string) (res string) {
+	defer func() {
+		if r := recover(); r != nil {
+			res = fmt.Sprintf("PANIC: %v", r)
+		}
+	}()
+	return f()
+}
+
+// tables dumps every finite table the verification models depend on.
+func tables() {
+	out := map[string]any{}
+	common := map[string]map[string]string{}
+	kinds := map[string]int{}
+	widths := map[string]int{}
+	signed := map[string]bool{}
+	jsonKinds := map[string]any{}
+	for _, a := range primitives {
+		common[string(a)] = map[string]string{}
+		for _, b := range primitives {
+			ta, tb := simple(a), simple(b)
+			c, err := dsl.GetCommonType(ta, tb)
+			if err != nil {
+				common[string(a)][string(b)] = ""
+			} else {
+				p, _ := dsl.GetPrimitiveType(c)
+				common[string(a)][string(b)] = string(p)
+			}
+		}
+		kinds[string(a)] = int(dsl.GetPrimitiveKind(a))
+		widths[string(a)] = dsl.GetPrimitiveWidth(a)
+		signed[string(a)] = dsl.IsSignedPrimitive(a)
+		a := a
+		jsonKinds[string(a)] = recovered(func() string { return fmt.Sprintf("%d", ndjsoncommon.GetJsonDataType(simple(a))) })
+	}
+	out["common_type"] = common
+	out["primitive_kind"] = kinds
+	out["primitive_width"] = widths
+	out["primitive_signed"] = signed
+	out["json_kind"] = jsonKinds
+	out["max_import_recursion_depth"] = packaging.MaxImportRecursionDepth
+	enc := json.NewEncoder(os.Stdout)
+	enc.SetIndent("", " ")
+	enc.Encode(out)
+}
+
+// names reads identifiers from stdin (one per line) and prints, per line, the derived identifiers of each backend.
+func names() {
+	sc := bufio.NewScanner(os.Stdin)
+	sc.Buffer(make([]byte, 1<<20), 1<<20)
+	w := bufio.NewWriter(os.Stdout)
+	defer w.Flush()
+	for sc.Scan() {
+		s := sc.Text()
+		res := map[string]string{
+			"in":             s,
+			"snake":          recovered(func() string { return formatting.ToSnakeCase(s) }),
+			"pascal":         recovered(func() string { return formatting.ToPascalCase(s) }),
+			"cpp_field":      recovered(func() string { return cppcommon.FieldIdentifierName(s) }),
+			"cpp_computed":   recovered(func() string { return cppcommon.ComputedFieldIdentifierName(s) }),
+			"cpp_namespace":  recovered(func() string { return cppcommon.NamespaceIdentifierName(s) }),
+			"py_field":       recovered(func() string { return pythoncommon.FieldIdentifierName(s) }),
+			"py_computed":    recovered(func() string { return pythoncommon.ComputedFieldIdentifierName(s) }),
+			"py_enumvalue":   recovered(func() string { return pythoncommon.EnumValueIdentifierName(s) }),
+			"matlab_field":   recovered(func() string { return matlabcommon.FieldIdentifierName(s) }),
+		}
+		b, _ := json.Marshal(res)
+		w.Write(b)
+		w.WriteString("\n")
+	}
+}
+
+func main() {
+	if len(os.Args) < 2 {
+		fmt.Fprintln(os.Stderr, "usage: yardl-verif tables|names")
+		os.Exit(2)
+	}
+	switch strings.ToLower(os.Args[1]) {
+	case "tables":
+		tables()
+	case "names":
+		names()
+	default:
+		fmt.Fprintln(os.Stderr, "unknown command")
+		os.Exit(2)
+	}
+}
